@@ -225,6 +225,8 @@ func (p *Path) intrinsic(caller *frame, fn *ssa.Function, name string, args []Va
 		return mkStr(""), true
 	case "(*internal/godebug.Setting).IncNonDefault":
 		return nil, true
+	case "errors.As":
+		return smt.ConstBool(p.errorsAs(caller, args[0].(Iface), args[1].(Iface), 0)), true
 	case "errors.Is":
 		return smt.ConstBool(p.errorsIs(caller, args[0].(Iface), args[1].(Iface), 0)), true
 	case "internal/bytealg.IndexByteString", "strings.IndexByte":
@@ -724,6 +726,60 @@ func (p *Path) errorsIs(caller *frame, err, target Iface, depth int) bool {
 			return false
 		}
 	}
+}
+
+// errorsAs mirrors errors.As (without reflection): the first error in the
+// Unwrap chain that is assignable to *target is stored there.
+func (p *Path) errorsAs(caller *frame, err, target Iface, depth int) bool {
+	if target.T == nil {
+		panic(targetPanic{msg: "errors: target cannot be nil"})
+	}
+	pt, ok := target.T.Underlying().(*types.Pointer)
+	if !ok {
+		panic(targetPanic{msg: "errors: target must be a non-nil pointer"})
+	}
+	addr, _ := target.V.(*Value)
+	if addr == nil {
+		panic(targetPanic{msg: "errors: target must be a non-nil pointer"})
+	}
+	want := pt.Elem()
+	_, wantIface := want.Underlying().(*types.Interface)
+	if depth > 32 {
+		p.abortf("errors.As: unwrap chain too deep")
+	}
+	for err.T != nil {
+		if wantIface {
+			if types.AssignableTo(err.T, want) {
+				*addr = err
+				return true
+			}
+		} else if sameType(err.T, want) {
+			*addr = copyVal(err.V)
+			return true
+		}
+		if m := p.method(err.T, "As"); m != nil {
+			p.abortf("errors.As: error type %s has its own As method (not modelled)", err.T)
+		}
+		m := p.method(err.T, "Unwrap")
+		if m == nil {
+			return false
+		}
+		r := p.callSSA(caller, token.NoPos, m, []Value{err.V}, nil)
+		switch r := r.(type) {
+		case Iface:
+			err = r
+		case []Value:
+			for _, e := range r {
+				if ei, ok := e.(Iface); ok && ei.T != nil && p.errorsAs(caller, ei, target, depth+1) {
+					return true
+				}
+			}
+			return false
+		default:
+			return false
+		}
+	}
+	return false
 }
 
 // jsonBadFloat is the condition under which some float64 reachable from v
